@@ -18,7 +18,7 @@ ROUTE_NAMES = {
     "ev": "str::parse::<toml_edit::de::ValueDeserializer>", "tvd": "toml::de::ValueDeserializer::new", "evv": "toml_edit::Value::into_deserializer",
     "wd": "toml::from_str of `x = <text>`", "we": "toml_edit::de::from_str of `x = <text>`", "wv": "toml::Table of `x = <text>`, entry x, try_into",
 }
-TYPES = ["config", "plain", "dates", "s", "owner"]
+TYPES = ["config", "plain", "dates", "ints", "s", "owner"]
 DT_HEX = "1979-05-27T07:32:00Z".encode().hex()
 
 
@@ -190,7 +190,7 @@ def gen(ctx):
     # 4. values of the derived types
     ns = 20000 if big else 400
     for ty in TYPES:
-        for seed in range(ns if ty in ("config", "plain", "dates") else ns // 4):
+        for seed in range(ns if ty in ("config", "plain", "dates", "ints") else ns // 4):
             add("SP"[seed % 2], f"val {ty} {seed}", "val-" + ty)
     # 5. toml::Value trees through their own serializer / deserializer
     for label, t, ident in exhaustive_trees(2, []):
